@@ -389,7 +389,7 @@ func errOfClass(e string) error {
 	return xerrors.Errorf("receiving: %w", xerrors.Errorf("buffer read: %w", base))
 }
 
-const opDeadline = 5 * time.Second
+const opDeadline = 10 * time.Second
 
 type opj struct {
 	K      string `json:"k"`
